@@ -331,6 +331,8 @@ def parse_rvalue(s):
         return Rvalue("ref", (True, parse_place(s[5:])))
     if s.startswith("&fake "):
         return Rvalue("ref", (False, parse_place(s[s.index(" ", 6) + 1:] if s[6:].startswith("shallow") else s[6:])))
+    if s.startswith("&/*tls*/ "):
+        return Rvalue("use", (Operand("const", const=Const("path", "tls:" + s[9:].strip(), None)),))
     if s.startswith("&") and (s[1] in "_("):
         return Rvalue("ref", (False, parse_place(s[1:])))
     if s.startswith("discriminant("):
@@ -518,7 +520,7 @@ def parse_line(line):
     lhs = s[:eq].strip()
     rhs = s[eq + 1:].strip()
     arrow = find_arrow(rhs)
-    if arrow is not None and rhs[:arrow].rstrip().endswith(")"):
+    if arrow is not None and rhs[:arrow].rstrip().endswith(")") and rhs[arrow + 4:].lstrip().startswith(("[", "bb", "unwind")):
         body = rhs[:arrow].rstrip()
         tg = parse_targets(rhs[arrow + 4:])
         # find the '(' matching the final ')': scan forward over top-level groups
@@ -638,6 +640,12 @@ def parse_mir(text):
                     while i < n and not lines[i].startswith("}"):
                         i += 1
                     i += 1
+            elif line.rstrip().endswith("= {") and ": " in line:
+                # anonymous constant (inline const / thread_local accessor): `PATH::{constant#0}: TYPE = {`
+                hd = line.rstrip()[:-1].rstrip()[:-1].rstrip()
+                k = find_name_type_sep(hd)
+                cur = Func(hd[:k], "const", [], hd[k + 2:], header=line)
+                cur.locals[0] = cur.ret
             else:
                 raise MirSyntaxError("top-level line %d: %r" % (i, line[:120]))
             continue
